@@ -679,8 +679,12 @@ func adaDotClass(text string, pcanon string) bool {
 	if k := strings.IndexByte(t, '?'); k >= 0 {
 		t = t[:k]
 	}
+	// ada reads a backslash as a slash in http(s) URLs: in front of and behind the authority it
+	// is a separator like any other (the consumed path itself must be free of backslashes for
+	// the defect to apply, which adaMisreads checks)
+	isSep := func(c byte) bool { return c == '/' || c == '\\' }
 	afterAuthority := func(r string) string { // r begins after "//"
-		j := strings.IndexByte(r, '/')
+		j := strings.IndexAny(r, "/\\")
 		if j < 0 {
 			return ""
 		}
@@ -696,13 +700,13 @@ func adaDotClass(text string, pcanon string) bool {
 	switch {
 	case schemeRe.MatchString(t):
 		r := t[strings.IndexByte(t, ':')+1:]
-		return adaMisreads(afterAuthority(strings.TrimLeft(r, "/")))
-	case strings.HasPrefix(t, "//"):
-		return adaMisreads(afterAuthority(strings.TrimLeft(t, "/")))
+		return adaMisreads(afterAuthority(strings.TrimLeft(r, "/\\")))
+	case len(t) >= 2 && isSep(t[0]) && isSep(t[1]):
+		return adaMisreads(afterAuthority(strings.TrimLeft(t, "/\\")))
 	case pcanon == "":
 		// scheme-less without a parent: the first non-empty segment becomes the host
 		return adaMisreads(afterAuthority(strings.TrimLeft(t, "/")))
-	case strings.HasPrefix(t, "/"):
+	case len(t) >= 1 && isSep(t[0]):
 		return adaMisreads(t[1:])
 	default:
 		pp := canonPath(pcanon)
